@@ -253,7 +253,7 @@ def entity_choices(fo: oracle.FormOracle, itype, mode="full"):
     if itype == "exterior_facet":
         return [((f, 0), (0, 0)) for f in range(nf)]
     out = []
-    if (mode == "quick" and tdim == 3) or (mode == "full" and cell == "hexahedron"):
+    if (mode == "quick" and tdim == 3) or (mode == "full-light" and cell == "hexahedron"):
         # (the full product on hexahedra is 36 facet pairs x 64 code pairs per geometry instance: the covering family is used in every tier)
         # every ordered facet pair under two code pairs; the full code product on two facet pairs
         full_on = {(0, nf - 1)}
@@ -265,7 +265,7 @@ def entity_choices(fo: oracle.FormOracle, itype, mode="full"):
             codes = list(itertools.product(range(nc), repeat=2)) if (f0, f1) in full_on else [(0, 0), (nc - 1, 1)]
             out += [((f0, f1), cd) for cd in codes]
         return out
-    if mode == "quick":
+    if mode in ("quick", "full-light"):
         mode = "full"
     for f0, f1 in itertools.product(range(nf), repeat=2):
         e0, e1 = oracle.entity_cellname(cell, tdim - 1, f0), oracle.entity_cellname(cell, tdim - 1, f1)
